@@ -10,6 +10,7 @@ loss / missing fsync, NFS semantics and the atomicity of rename(2) are trusted, 
 import ArvVerif.Proofs.C02_Inv
 import ArvVerif.Proofs.C02_Pipe
 import ArvVerif.Proofs.C02_Put
+import ArvVerif.Proofs.C02_Conc
 namespace ArvVerif.C02
 
 /-- A temp file name `tmp<hash><suffix>` is never a block name (`blockFileRe`: not listed by
@@ -105,6 +106,24 @@ theorem C02_stored_block_survives_put (hash : Bytes → Name) (fs : FS) (p : Put
     rw [this]
     exact ⟨b, by simpa using hb⟩
 
+/-- Two `WriteBlock` runs for the same hash at the same time (a client retry, two clients uploading
+the same data), with **distinct temp names** (what `ioutil.TempFile`'s O_EXCL + random suffix
+provides; tied by `tie_tempFileText`): for every interleaving of their step lists and a crash at
+any moment (`sched` of any length), the block path holds its old content or the complete data of
+a run that returned nil — an abandoned writer has no effect on what the other one publishes. -/
+theorem C02_concurrent_writes_atomic (fs : FS) (wA wB : WBIn) (hh : wB.h = wA.h) (hs : wA.sfx ≠ wB.sfx)
+    (sched : List Bool) :
+    (run fs (interleave sched (writeBlockEvs wA).1 (writeBlockEvs wB).1)).get (blockPath wA.h) = fs.get (blockPath wA.h) ∨
+    ((writeBlockEvs wA).2 = true ∧
+      (run fs (interleave sched (writeBlockEvs wA).1 (writeBlockEvs wB).1)).get (blockPath wA.h) = some ⟨wA.chunks.flatten, wA.now⟩) ∨
+    ((writeBlockEvs wB).2 = true ∧
+      (run fs (interleave sched (writeBlockEvs wA).1 (writeBlockEvs wB).1)).get (blockPath wA.h) = some ⟨wB.chunks.flatten, wB.now⟩) := by
+  have hA := wb_rem fs wA
+  have hB := wb_rem fs wB
+  rw [hh] at hB
+  exact conc_atomic (tmpPath_inj hs) (tmpPath_ne_blockPath _ _)
+    (tmpPath_ne_blockPath _ _) sched fs _ _ _ _ hA hB
+
 /-- Invariant over all histories of PUT / WriteBlock / Touch / Trash / Untrash / EmptyTrash
 micro-steps and environment steps **with a crash possible after every micro-step**: if every visible
 block (and every trashed copy that `Untrash` could bring back) of the initial state is intact, the
@@ -178,6 +197,16 @@ example : (run exCorrupt ((writeBlockEvs exW).1.take 8)).get (blockPath exH) = s
 -- a reader error after the first chunk: every prefix keeps the old copy, the temp file is removed
 example : (run exCorrupt (writeBlockEvs { exW with chunks := [[1]], rend := .err }).1).files
     = [(blockPath exH, ⟨[9, 9], 0⟩)] := by decide
+
+-- C02_concurrent_writes_atomic: B starts while A is mid-copy, A finishes, B is abandoned: A's data
+-- is published. The hypothesis `sfx ≠` is needed: with one shared temp name (createTemp truncates)
+-- the same schedule publishes a block that lacks A's first chunk.
+def exWB : WBIn := { exW with sfx := ['4', '3'], chunks := [], rend := .err }
+def exSched : List Bool := [true, true, true, true, false, false, false, true, true, true, true]
+example : (run FS.empty (interleave exSched (writeBlockEvs exW).1 (writeBlockEvs exWB).1)).get (blockPath exH)
+    = some ⟨exBody, 7⟩ := by decide
+example : (run FS.empty (interleave exSched (writeBlockEvs exW).1
+    (writeBlockEvs { exWB with sfx := exW.sfx }).1)).get (blockPath exH) = some ⟨[2, 3], 7⟩ := by decide
 
 def exPut : PutIn := ⟨exH, exBody, 7, none, [exW], false, false⟩
 
